@@ -17,6 +17,33 @@ import LopdfModel.Gen.SitesC13
 namespace Lopdf
 open Gen
 
+namespace Outcome
+def ofOpt {α} : Option α → Outcome α
+  | some a => .ok a
+  | none => .err "e"
+def map {α β} (f : α → β) : Outcome α → Outcome β
+  | ok a => ok (f a)
+  | err e => err e
+  | panic s => panic s
+end Outcome
+
+namespace Obj
+def asStr : Obj → Option Bytes
+  | .str s _ => some s
+  | _ => none
+def asStream : Obj → Option (Dict × Bytes)
+  | .stream d c => some (d, c)
+  | _ => none
+def isRef : Obj → Bool
+  | .ref _ _ => true
+  | _ => false
+end Obj
+
+/-- `Dictionary::has_type` -/
+def Dict.hasType (d : Dict) (t : Bytes) : Bool := (d.get TYPE).bind Obj.asName == some t
+
+namespace Q13
+
 def K_Contents : Bytes := [67, 111, 110, 116, 101, 110, 116, 115]  -- "Contents"
 def K_Resources : Bytes := [82, 101, 115, 111, 117, 114, 99, 101, 115]  -- "Resources"
 def K_Parent : Bytes := [80, 97, 114, 101, 110, 116]  -- "Parent"
@@ -61,33 +88,8 @@ def K_PDFDocEncoding : Bytes := [80, 68, 70, 68, 111, 99, 69, 110, 99, 111, 100,
 def K_Identity_H : Bytes := [73, 100, 101, 110, 116, 105, 116, 121, 45, 72]  -- "Identity-H"
 def K_Identity_V : Bytes := [73, 100, 101, 110, 116, 105, 116, 121, 45, 86]  -- "Identity-V"
 
-namespace Outcome
-def ofOpt {α} : Option α → Outcome α
-  | some a => .ok a
-  | none => .err "e"
-def map {α β} (f : α → β) : Outcome α → Outcome β
-  | ok a => ok (f a)
-  | err e => err e
-  | panic s => panic s
-end Outcome
-
 /-- every `Err(_)` of lopdf is one class -/
 abbrev E {α} : Outcome α := .err "e"
-
-namespace Obj
-def asStr : Obj → Option Bytes
-  | .str s _ => some s
-  | _ => none
-def asStream : Obj → Option (Dict × Bytes)
-  | .stream d c => some (d, c)
-  | _ => none
-def isRef : Obj → Bool
-  | .ref _ _ => true
-  | _ => false
-end Obj
-
-/-- `Dictionary::has_type` -/
-def Dict.hasType (d : Dict) (t : Bytes) : Bool := (d.get TYPE).bind Obj.asName == some t
 
 /-! ### dereference / lookup (src/document.rs 144-218) -/
 
@@ -363,10 +365,10 @@ structure Img where
   nfilters : Nat
   deriving Repr, DecidableEq
 
-/-- the `color_space` match: `array[0]` is an unchecked index -/
+/-- the `color_space` match: `array.first()` — an empty array gives `None` -/
 def imageColorSpace (dict : Dict) : Outcome Bool :=
   match dict.get K_ColorSpace with
-  | some (.arr []) => .panic S_IMAGES_CS
+  | some (.arr []) => .ok false
   | some (.arr (x :: _)) => match x.asName with
     | some _ => .ok true
     | none => E
@@ -471,28 +473,16 @@ def getFontEncoding (os : Objects) (font : Dict) : Outcome EncKind :=
     | some _ => .ok .toUnicode
     | none => .ok (.one "Standard")
 
-/-! ### get_pages: `PageTreeIter::size_hint` + `collect()` (src/document.rs 547-549, 877-899) -/
+/-! ### get_pages: `collect()` over `PageTreeIter` (src/document.rs 547-549, 877-899)
+
+`size_hint` now reports the lower bound `SIZE_HINT_LOWER` (= 0, regenerated from the source) and
+folds the `Count` values with `saturating_add`, so neither the sum nor the reservation depends on
+the file any more; what remains is std's `Vec` growth. -/
 
 def USIZE : Nat := 2 ^ 64
 def ISIZE_MAX : Nat := 2 ^ 63 - 1
-def S_SUM : String := "core:sum-overflow"
 def S_CAP : String := "alloc:capacity-overflow"
 def S_ALLOC : String := "abort:alloc"
-
-/-- one summand of `size_hint` -/
-def kidCount (os : Objects) (kid : Obj) : Nat :=
-  match kid.asRef.bind (getDictionary os) with
-  | none => 1
-  | some d =>
-    if d.getType = some PAGES then
-      match (getDeref os d K_Count).bind Obj.asInt with
-      | some c => c.toNat          -- `max(0, count) as usize`
-      | none => 0
-    else 1
-
-/-- the mathematical value of the sum in `size_hint` (the `usize` sum panics when it reaches 2^64) -/
-def sizeHintRaw (os : Objects) (kids : Option (List Obj)) (stack : List (List Obj)) : Nat :=
-  (((kids.getD []) ++ stack.flatten).map (kidCount os)).sum
 
 def satAdd1 (n : Nat) : Nat := if n + 1 < USIZE then n + 1 else USIZE - 1
 
@@ -505,7 +495,8 @@ def allocCheck (esz memMax cap : Nat) : Outcome Unit :=
   else .ok ()
 
 /-- capacity after `Vec::from_iter` / `extend_desugared` made room for one more element:
-the first element allocates `max(4, lower+1)`, later ones `reserve(lower+1)` when full. -/
+the first element allocates `max(4, lower+1)`, later ones `reserve(lower+1)` when full
+(amortised doubling). `lower` = the iterator's `size_hint().0`. -/
 def growCap (esz memMax len cap lower : Nat) : Outcome Nat :=
   if len = 0 then
     let c := max 4 (satAdd1 lower)
@@ -523,40 +514,38 @@ def growCap (esz memMax len cap lower : Nat) : Outcome Nat :=
       | .err e => .err e
       | .panic s => .panic s
 
-/-- what `collect` does right after the iterator yielded an element (iterator state `k`, `stk`):
-`size_hint` is consulted for the first element and whenever the vector is full. -/
-def afterYield (hint : Option (List Obj) → List (List Obj) → Nat) (esz memMax : Nat)
-    (k : Option (List Obj)) (stk : List (List Obj)) (len cap : Nat) : Outcome Nat :=
-  if len = 0 ∨ len = cap then
-    if hint k stk ≥ USIZE then .panic S_SUM
-    else growCap esz memMax len cap (hint k stk)
+/-- what `collect` does right after the iterator yielded an element: room is made for the first
+element and whenever the vector is full, with the lower bound `size_hint` reports. -/
+def afterYield (esz memMax len cap : Nat) : Outcome Nat :=
+  if len = 0 ∨ len = cap then growCap esz memMax len cap SIZE_HINT_LOWER
   else .ok cap
 
 /-- `page_iter().collect::<Vec<_>>()` with the vector's capacity made explicit — the same
-recursion (and the same fuel-free termination measure) as `run` of C12. -/
-def runCap (cls : Obj → Cls) (hint : Option (List Obj) → List (List Obj) → Nat) (esz memMax : Nat) :
-    Option (List Obj) → List (List Obj) → Nat → Nat → Nat → Outcome (List ObjId)
+recursion (and the same fuel-free termination measure) as `run` of C12. Result: the ids and the
+final capacity of the vector. -/
+def runCap (cls : Obj → Cls) (esz memMax : Nat) :
+    Option (List Obj) → List (List Obj) → Nat → Nat → Nat → Outcome (List ObjId × Nat)
   | some (kid :: rest), stack, limit, len, cap =>
-    if limit = 0 then .ok [] else
+    if limit = 0 then .ok ([], cap) else
     match cls kid with
-    | .skip => runCap cls hint esz memMax (some rest) stack (limit - 1) len cap
+    | .skip => runCap cls esz memMax (some rest) stack (limit - 1) len cap
     | .page id =>
-      match afterYield hint esz memMax (some rest) stack len cap with
+      match afterYield esz memMax len cap with
       | .panic s => .panic s
       | .err e => .err e
       | .ok cap' =>
-        match runCap cls hint esz memMax (some rest) stack (limit - 1) (len + 1) cap' with
-        | .ok l => .ok (id :: l)
+        match runCap cls esz memMax (some rest) stack (limit - 1) (len + 1) cap' with
+        | .ok (l, c) => .ok (id :: l, c)
         | .err e => .err e
         | .panic s => .panic s
     | .pages ks =>
       if stack.length < PAGE_TREE_DEPTH_LIMIT then
-        runCap cls hint esz memMax ks (if rest.isEmpty then stack else rest :: stack) (limit - 1) len cap
-      else runCap cls hint esz memMax (some rest) stack (limit - 1) len cap
-  | some [], top :: st, limit, len, cap => runCap cls hint esz memMax (some top) st limit len cap
-  | none, top :: st, limit, len, cap => runCap cls hint esz memMax (some top) st limit len cap
-  | some [], [], _, _, _ => .ok []
-  | none, [], _, _, _ => .ok []
+        runCap cls esz memMax ks (if rest.isEmpty then stack else rest :: stack) (limit - 1) len cap
+      else runCap cls esz memMax (some rest) stack (limit - 1) len cap
+  | some [], top :: st, limit, len, cap => runCap cls esz memMax (some top) st limit len cap
+  | none, top :: st, limit, len, cap => runCap cls esz memMax (some top) st limit len cap
+  | some [], [], _, _, cap => .ok ([], cap)
+  | none, [], _, _, cap => .ok ([], cap)
 termination_by k s l => (l, s.length, match k with | some x => x.length + 1 | none => 0)
 decreasing_by
   all_goals simp_wf
@@ -569,15 +558,16 @@ def pageRoot (trailer : Dict) (os : Objects) : Option ObjId :=
   ((trailer.get ROOT).bind Obj.asRef).bind fun cat =>
     (getDictionary os cat).bind fun d => (d.get PAGES).bind Obj.asRef
 
-/-- `page_iter().…collect()`: `esz` = 12 for `get_pages` (`(u32, ObjectId)`), 8 for a `Vec<ObjectId>` -/
-def collectPages (esz memMax : Nat) (trailer : Dict) (os : Objects) : Outcome (List ObjId) :=
+/-- `page_iter().…collect()`: `esz` = 12 for `get_pages` (`(u32, ObjectId)`), 8 for a `Vec<ObjectId>`;
+the ids and the capacity of the collected vector -/
+def collectPages (esz memMax : Nat) (trailer : Dict) (os : Objects) : Outcome (List ObjId × Nat) :=
   match pageRoot trailer os with
-  | some pid => runCap (classify os) (sizeHintRaw os) esz memMax (kidsOf os pid) [] os.length 0 0
-  | none => .ok []
+  | some pid => runCap (classify os) esz memMax (kidsOf os pid) [] os.length 0 0
+  | none => .ok ([], 0)
 
 /-- `Document::get_pages` (page number n ↦ n-th element) -/
 def getPages (memMax : Nat) (trailer : Dict) (os : Objects) : Outcome (List ObjId) :=
-  collectPages 12 memMax trailer os
+  (collectPages 12 memMax trailer os).map (·.1)
 
 def objectPageLoop (os : Objects) (id : ObjId) : List ObjId → Outcome ObjId
   | [] => E
@@ -597,4 +587,5 @@ def getObjectPage (memMax : Nat) (trailer : Dict) (os : Objects) (id : ObjId) : 
   | .err e => .err e
   | .panic s => .panic s
 
+end Q13
 end Lopdf
